@@ -99,6 +99,12 @@ func SendMissingStz(lastSent int, s Sender, uaq *stanza.UnAckQueue) error {
 		// Stream management was never enabled on this session: nothing is held.
 		return nil
 	}
+	// While an acknowledgement is applied, Send and SendRaw neither number nor write a stanza: one that has
+	// its number but is not written yet would be discarded, or written again before it was written at all.
+	if c, ok := s.(*Client); ok {
+		c.sendMu.Lock()
+		defer c.sendMu.Unlock()
+	}
 	uaq.RWMutex.Lock()
 	defer uaq.RWMutex.Unlock()
 	if len(uaq.Uslice) <= 0 {
@@ -120,7 +126,7 @@ func SendMissingStz(lastSent int, s Sender, uaq *stanza.UnAckQueue) error {
 		}
 	}
 	// Ask for updates on stanzas we just sent to the entity. Not sure I should leave this. Maybe let users call ack again by themselves ?
-	s.Send(stanza.SMRequest{})
+	requestAck(s)
 	return nil
 }
 
@@ -130,6 +136,19 @@ func resendRaw(s Sender, stz string) error {
 		return c.sendWithWriter(c.transport, []byte(stz))
 	}
 	return s.SendRaw(stz)
+}
+
+// requestAck writes the acknowledgement request that follows a retransmission. Like resendRaw it does not go
+// through Client.Send, which would wait for the lock SendMissingStz holds.
+func requestAck(s Sender) error {
+	if c, ok := s.(*Client); ok && c.transport != nil {
+		data, err := xml.Marshal(stanza.SMRequest{})
+		if err != nil {
+			return err
+		}
+		return c.sendWithWriter(c.transport, data)
+	}
+	return s.Send(stanza.SMRequest{})
 }
 
 func iqNotImplemented(s Sender, iq *stanza.IQ) {
